@@ -311,7 +311,7 @@ def check(ctx):
     cg = CallGraph(F)
     roots = [S + n for n in ("push", "pop", "pop2", "pop3", "top", "top2", "top3", "discard", "push_many", "set_max_stack_size", "size", "is_empty", "is_full", "max_stack_size")] + [TE]
     scope = cg.reach(roots)
-    audit_panics(ctx, "R04.5", scope, stack_discharge(), floor=4)
+    audit_panics(ctx, "R04.5", scope, stack_discharge(), floor=1)
 
 
 def stack_discharge():
